@@ -170,6 +170,11 @@ class Case:
             out.add("C04-F23-abstract-type-condition")
         if re.search(r"(?<![A-Za-z0-9_])_+[0-9]", self.sc.sdl + (self.sc.queries or "")):
             out.add("C04-F18-underscore-digit-name")
+        from graphql import GraphQLEnumType
+
+        if any(S.enum_reserved_value(v) for t in self.schema.type_map.values() if isinstance(t, GraphQLEnumType)
+               and not t.name.startswith("__") for v in t.values):
+            out.add("C04-F31-enum-reserved-value-name")
         return out
 
     def replay(self, **extra) -> dict:
@@ -307,13 +312,24 @@ CORPUS = [
     ("ok-custom-operations", "query Q { animal { name } }", CUSTOM),
     ("ok-op-named-like-unwritten-custom-file", "query customFields { s }", {}),
     ("ok-same-class-name-in-two-modules", "query Foo { animal { name } } query FooAnimal { s }", {}),
+    # a three-level mixin chain with both ends spread side by side (bases must stay a consistent MRO)
+    ("ok-fragment-chain-both-ends", "query Q { dogs { ...Basic ...Whole } } fragment Basic on Dog { id } "
+     "fragment Named on Dog { ...Basic name } fragment Whole on Dog { ...Named bark }", {}),
+    # enum values that are soft keywords / keywords, used as defaults at every depth of an input
+    ("ok-keyword-enum-defaults", "query Q($o: OrderBy = type, $f: F) { sorted(o: $o, f: $f) }", CUSTOM,
+     "enum OrderBy { type match case _ class None } input G { o: OrderBy = class } "
+     "input F { o: OrderBy = type l: [OrderBy!] = [match, None] g: G = {o: case} gs: [G!] = [{o: _}] } "
+     "type Query { sorted(o: OrderBy = match, f: F = {o: type}): Int }"),
+    ("F31", "query Q { e }", {}, "enum E { OK mro _name_ } input I { e: E = mro } type Query { e(i: I): E }"),
 ]
 
 
 def corpus_cases() -> list:
     out = []
-    for i, (name, q, cfg) in enumerate(CORPUS):
-        sc = scenario.Scenario(seed=-1 - i, sdl=CORPUS_SDL, queries=q + "\n", config=dict(cfg), features=("corpus",),
+    for i, entry in enumerate(CORPUS):
+        name, q, cfg = entry[:3]
+        sc = scenario.Scenario(seed=-1 - i, sdl=entry[3] if len(entry) > 3 else CORPUS_SDL, queries=q + "\n",
+                               config=dict(cfg), features=("corpus",),
                                notes={"corpus": name, "pinned": sorted(cfg)})
         out.append(Case0(sc, "corpus"))
     return out
@@ -331,6 +347,7 @@ def build_cases(ctx) -> list:
         "quote_literal": 4 if not T else 20, "escaped_literal": 8 if not T else 40, "self_variable": 4 if not T else 20,
         "local_name_variables": 6 if not T else 30, "dup_files": 10 if not T else 50,
         "unchecked_files": 6 if not T else 24, "custom_only": 4 if not T else 16, "custom_base": 4 if not T else 16,
+        "frag_graphs": 24 if not T else 160, "references": 16 if not T else 100, "enum_reserved": 6 if not T else 30,
     }
     cases = []
     depth = 3 if not T else 4
@@ -349,6 +366,13 @@ def build_cases(ctx) -> list:
         while made < n and tries < 4 * n + 8:
             tries += 1
             k += 1
+            if stream in ("frag_graphs", "references", "enum_reserved"):
+                sc = (S.frag_graphs(base + k, rng) if stream == "frag_graphs"
+                      else S.references(base + k, rng, reserved=(stream == "enum_reserved")))
+                if sc is not None:
+                    cases.append((sc, stream))
+                    made += 1
+                continue
             feats = (stream,) if stream in ("weird_names", "untyped_inline", "foreign_cond") else ()
             sc = base_scenario(k, feats)
             if sc is None:
@@ -427,18 +451,59 @@ class Case0(Case):
 
 
 # ---------------------------------------------------------------------------------------------- running cases
+# references that importing a module does not evaluate: default factories of model fields (list / object defaults
+# live inside lambdas), enum members for every value of the schema (a member can be swallowed by Enum's own
+# machinery without an error), the client class constructor
+DEEP_PROBE = '''
+import enum
+bad = []
+for mn, m in mods.items():
+    for name, obj in list(vars(m).items()):
+        if isinstance(obj, type) and hasattr(obj, "model_fields") and obj.__module__ == m.__name__:
+            for fn, f in obj.model_fields.items():
+                if f.default_factory is not None:
+                    try:
+                        f.default_factory()
+                    except Exception as e:
+                        bad.append(f"default of {mn}.{name}.{fn}: {type(e).__name__}: {str(e)[:160]}")
+        if isinstance(obj, type) and issubclass(obj, enum.Enum) and obj.__module__ == m.__name__ and name in ENUMS:
+            for v in ENUMS[name]:
+                try:
+                    obj(v)
+                except Exception as e:
+                    bad.append(f"enum {mn}.{name} has no member for value {v!r}: {type(e).__name__}")
+cls = STATE.get("client_cls")
+if cls is not None:
+    try:
+        cls(url="http://test.local/graphql")
+    except Exception as e:
+        bad.append(f"client constructor: {type(e).__name__}: {str(e)[:160]}")
+result = bad
+'''
+
+
 def execute(cases, scratch, jobs=14):
     """generate every case with the real generator, load what was generated in fresh interpreters"""
+    from graphql import GraphQLEnumType
+
     gens = scen.generate([c.sc for c in cases], scratch, jobs=jobs)
 
-    def load(g):
+    def load(cg):
+        c, g = cg
         if not g.ok:
             return None
         ld = g.start()
-        g.stop()
+        try:
+            if ld.get("ok"):
+                enums = {n: list(t.values) for n, t in c.schema.type_map.items()
+                         if isinstance(t, GraphQLEnumType) and not n.startswith("__")}
+                r = g.driver.ask({"cmd": "eval", "code": f"ENUMS = {enums!r}\n" + DEEP_PROBE})
+                ld["deep"] = r.get("value") if "exc" not in r else [f"probe failed: {r['exc']}"]
+        finally:
+            g.stop()
         return ld
 
-    loads = scen.parallel(gens, load, jobs=jobs)
+    loads = scen.parallel(list(zip(cases, gens)), load, jobs=jobs)
     return gens, loads
 
 
@@ -472,6 +537,8 @@ def judge(case: Case, g, ld) -> dict:
         return v
     if ld.get("incomplete"):
         v["problems"].append(("incomplete-models", str(ld["incomplete"][:8])))
+    if ld.get("deep"):
+        v["problems"].append(("unresolved-reference", "; ".join(ld["deep"][:6])))
     py_mods = sorted(f[:-3] for f in files if f.endswith(".py") and f != "__init__.py" and "/" not in f)
     if sorted(ld["modules"]) != py_mods:
         v["problems"].append(("modules-listed", f"imported {sorted(ld['modules'])} vs files {py_mods}"))
@@ -492,6 +559,8 @@ def judge(case: Case, g, ld) -> dict:
 SYMPTOMS = {
     "C04-F2-untyped-inline-fragment": lambda k, d: k == "generation-crash" and "AttributeError" in d and "NoneType" in d,
     "C04-F23-abstract-type-condition": lambda k, d: k == "generation-crash" and "ParsingError" in d and "not found in type" in d,
+    "C04-F31-enum-reserved-value-name": lambda k, d: (k == "import-failed" and ("enum" in d.lower() or "_order_" in d or "_ignore_" in d))
+                                        or (k == "unresolved-reference" and ("has no member for value" in d or "type=enum" in d)),
     "C04-F18-underscore-digit-name": lambda k, d: (k == "generation-crash" and "InvalidInput" in d) or (k == "import-failed" and "SyntaxError" in d),
 }
 
@@ -519,18 +588,34 @@ def run(ctx):
         "names contributed by the enum/input/fragment/result generators are inputs of the layout model "
         "(read from the generated modules); their correctness is C01/C08/C09's business",
     ]
+    import time
+
+    t = [time.time()]
+    phases = {}
+
+    def lap(name):
+        t.append(time.time())
+        phases[name] = round(t[-1] - t[-2], 1)
+
     k2(ctx)
+    lap("k2")
     cases = corpus_cases() + build_cases(ctx)
+    lap("build_cases")
     with workers.Scratch(prefix="vh-c04-") as scratch:
         gens, loads = execute(cases, scratch)
-        cmds = [model_command(c, g.res.get("target") if g.ok else None) for c, g in zip(cases, gens)]
+        lap("generate+load")
+        cmds = scen.parallel(list(zip(cases, gens)), lambda cg: model_command(cg[0], cg[1].res.get("target") if cg[1].ok else None), jobs=8)
         mres = model.batch("C04", cmds)
+        lap("model")
         verdicts = [judge(c, g, ld) for c, g, ld in zip(cases, gens, loads)]
         to_shrink = []
         seen_classes = set()
         for c, g, ld, m, v in zip(cases, gens, loads, mres, verdicts):
             account(ctx, c, g, ld, m, v, to_shrink, seen_classes)
+        lap("judge+account")
         search(ctx, to_shrink, scratch)
+        lap("search")
+    run.extra["phase_s"] = phases
     run.extra["cases"] = len(cases)
 
 
